@@ -23,8 +23,11 @@
 EXTENDS Naturals, Sequences, FiniteSets, TLC, Json
 
 CONSTANTS
-  ReaderInputs,     \* set of <<max_bytes, byte sequence>> to decode
+  ReaderInputs,     \* sequence of sets of byte sequences to decode (kept apart: TLC's set union is quadratic);
+                    \* each is decoded as VarInt (5) and as VarLong (10); every string of <= 2 bytes is always included
   WriterInputs,     \* set of <<digits, ext>> to encode
+  WriterDigits,     \* additionally every non-negative number of at most this many base-128 digits (0..3),
+                    \* enumerated from intervals (TLC refuses to build sets of more than 10^6 elements)
   RejectNegative,   \* TRUE: the writer raises for negative input (code after the fix)
   OutCap,           \* bound on the writer's output length explored (state constraint)
   Emit              \* TRUE: print one JSON row per terminal state
@@ -82,11 +85,16 @@ SizeOf(d) == Len(Canonical(d))
 
 Init ==
   \/ /\ mode = "r"
-     /\ \E ri \in ReaderInputs : mx = ri[1] /\ inp = ri[2]
+     /\ mx \in {5, 10}
+     /\ \/ \E n \in 0..2 : inp \in [1..n -> 0..255]
+        \/ \E i \in 1..Len(ReaderInputs) : inp \in ReaderInputs[i]
      /\ pos = 0 /\ groups = <<>> /\ enc = 0
      /\ digits = <<>> /\ ext = 0 /\ out = <<>> /\ outcome = "run" /\ src = <<>>
   \/ /\ mode = "w"
-     /\ \E wi \in WriterInputs : digits = wi[1] /\ ext = wi[2] /\ src = wi
+     /\ \/ \E wi \in WriterInputs : digits = wi[1] /\ ext = wi[2] /\ src = wi
+        \/ /\ WriterDigits >= 2
+           /\ \E a \in 0..127, b \in 0..127, c \in (IF WriterDigits >= 3 THEN 0..127 ELSE {0}) :
+                /\ digits = Strip(<<a, b, c>>) /\ ext = 0 /\ src = <<Strip(<<a, b, c>>), 0>>
      /\ mx = 0 /\ inp = <<>> /\ pos = 0 /\ groups = <<>> /\ enc = 0
      /\ out = <<>> /\ outcome = "run"
 
@@ -202,6 +210,9 @@ Row ==
   ELSE [k |-> "w", n |-> src[1], e |-> src[2], o |-> outcome, b |-> out,
         sz |-> IF src[2] = 0 THEN SizeOf(src[1]) ELSE 0]
 
-EmitRows == (Emit /\ Terminal) => PrintT(ToJson(Row))
+\* three-digit writer inputs are model-checked in full but printed only at the corners (2 million rows are too
+\* many to hand over; the harness sweeps every n < 2^21 through the code against its own reference instead)
+Printed == mode = "r" \/ Len(src[1]) < 3 \/ (src[1][1] \in {0, 127} /\ src[1][2] \in {0, 127})
+EmitRows == (Emit /\ Terminal /\ Printed) => PrintT(ToJson(Row))
 
 =============================================================================
